@@ -3,6 +3,9 @@ package checks
 import (
 	"errors"
 	"fmt"
+	"regexp"
+	"runtime/debug"
+	"strings"
 	"time"
 
 	"github.com/lidofinance/dc4bc/client/modules/keystore"
@@ -53,9 +56,27 @@ func NewLab(n, t, view int) (*Lab, error) {
 
 // Step restores snap, feeds one message to ProcessMessage and returns (error, new snapshot,
 // board appends). A panic is reported as a distinct error value.
-type PanicError struct{ V interface{} }
+type PanicError struct {
+	V    interface{}
+	Site string // innermost dc4bc function on the panicking stack
+}
 
-func (p *PanicError) Error() string { return fmt.Sprintf("PANIC: %v", p.V) }
+func (p *PanicError) Error() string { return fmt.Sprintf("PANIC in %s: %v", p.Site, p.V) }
+
+var frameRe = regexp.MustCompile(`(?m)^(github\.com/lidofinance/dc4bc/[^\s(]+(?:\([^)]*\))?[^\s(]*)\(`)
+
+// PanicSite extracts the innermost repository function from a stack trace taken inside recover().
+func PanicSite(stack []byte) string {
+	for _, m := range frameRe.FindAllSubmatch(stack, -1) {
+		f := string(m[1])
+		if strings.Contains(f, "/verifshim/") {
+			continue
+		}
+		f = strings.TrimPrefix(f, "github.com/lidofinance/dc4bc/")
+		return f
+	}
+	return "outside-repository"
+}
 
 func (l *Lab) Step(snap world.Snapshot, m storage.Message) (err error, after world.Snapshot, appended []storage.Message) {
 	l.Node.Mem.Restore(snap)
@@ -63,7 +84,7 @@ func (l *Lab) Step(snap world.Snapshot, m storage.Message) (err error, after wor
 	func() {
 		defer func() {
 			if r := recover(); r != nil {
-				err = &PanicError{r}
+				err = &PanicError{V: r, Site: PanicSite(debug.Stack())}
 			}
 		}()
 		err = l.Node.Svc.ProcessMessage(m)
